@@ -8,7 +8,7 @@
        TN   not applied, timeout              TA   APPLIED, but a timeout is reported
    What the request does when operation i fails is transcribed from the code, per code path (`path` of the program):
        doc                 db/crud.go updateAndReturnDoc / documentUpdateFunc
-       UpdatePrincipal     db/users.go UpdatePrincipal -> auth.Save
+       UpdatePrincipal     db/users.go UpdatePrincipal -> auth.Save   (as of /repo d57d9c7: sequence released on non-CAS, non-timeout Save errors)
        casUpdatePrincipal  db/users.go DeleteRole(purge=false) -> auth.casUpdatePrincipal -> Save
        purgeRole           db/users.go DeleteRole(purge=true)
        deleteUser          auth.DeleteUser (email index document first, then the user document)
@@ -102,9 +102,13 @@ Apply(i) == /\ dirty' = IF Effective(i) THEN [dirty EXCEPT ![C(Ops[i])] = @ + 1]
             /\ took' = IF M(Ops[i]) = "Incr" /\ C(Ops[i]) = "seq" THEN took + 1 ELSE took
 NoApply == UNCHANGED <<dirty, took>>
 
-(* leave the request through its error path: the document path gives back what it reserved - if it knows the number *)
+(* leave the request through its error path: the document path gives back what it reserved - if it knows the number
+   (docSequence is set once documentUpdateFunc has returned successfully); UpdatePrincipal gives its sequence back on every
+   Save error that is not a timeout (and not a CAS mismatch, which retries); DeleteRole / DeleteUser give nothing back *)
 Leave(r) ==
-  IF p.path = "doc" /\ seqKnown' /\ took' > given /\ r # "timeout"     \* `if !base.IsTimeoutError(err)`: after a timeout nothing is released
+  IF /\ took' > given /\ r # "timeout"                                  \* `if !base.IsTimeoutError(err)`: after a timeout nothing is released
+     /\ \/ p.path = "doc" /\ seqKnown'
+        \/ p.path = "UpdatePrincipal"
   THEN /\ mode' = "release" /\ pend' = r /\ reply' = "none"
   ELSE /\ mode' = "end" /\ pend' = "none" /\ reply' = r
 
@@ -125,8 +129,9 @@ ImplOk(i, same) ==
   /\ seqKnown' = (seqKnown \/ i = CommitIdx)
   /\ pc' = i + 1 /\ UNCHANGED <<given, ta, retried, relFault, miss, mode, pend, reply>>
 
-(* on a retry the code may skip operations whose effect is already there (the sequence is reused, an existing backup is
-   only touched); in a first pass every operation of the program is issued *)
+(* positions of the program the code does not issue: the SetRaw of a backup whose Touch did not say "not found"; backups and
+   the clean-up of an external body when the body could not be loaded; and, on a retry after a CAS mismatch, operations that
+   already succeeded (the sequence is reused).  In a first, undisturbed pass every operation of the program is issued. *)
 Skippable(i) == \/ Guarded(i) /\ ~prevSame
                 \/ miss /\ Phase(i) = "pre" /\ C(Ops[i]) = "revbackup"      \* no body, nothing to back up
                 \/ miss /\ Phase(i) = "post" /\ M(Ops[i]) = "Delete" /\ C(Ops[i]) = "revbody"   \* ... and no external body known to clean up
@@ -150,7 +155,7 @@ ImplFail(i, k) ==
              THEN /\ pc' = RetryTarget(i) /\ retried' = TRUE /\ UNCHANGED <<mode, pend, reply>>    \* the store's own read-modify-write loop
              ELSE CASE Policy(i) = "ignore" -> /\ pc' \in (IF W(Ops[i]) THEN {i + 1} ELSE {i, i + 1})   \* a body that could not be loaded is loaded again by its next user - or not needed again
                                                /\ UNCHANGED <<retried, mode, pend, reply>>
-                    [] Policy(i) = "report" -> /\ pc' = i /\ retried' = retried /\ mode' = "end" /\ pend' = "none" /\ reply' = FailReply(k)
+                    [] Policy(i) = "report" -> /\ pc' = i /\ retried' = retried /\ Leave(FailReply(k))    \* ... and the sequence the stored user carries is released
                     [] OTHER                -> /\ pc' = i /\ retried' = retried /\ Leave(FailReply(k))
      ELSE \* ---- the commit operation
           /\ seqKnown' = TRUE
